@@ -230,7 +230,7 @@ def env_for(variant: str = 'plain', extra: dict | None = None, log_path: str | N
         env['UBSAN_OPTIONS'] = 'print_stacktrace=1:halt_on_error=0' + (f':log_path={log_path}' if log_path else '')
     elif variant == 'tsan':
         env['LD_PRELOAD'] = tsan_runtime()
-        opts = 'halt_on_error=0:second_deadlock_stack=1:report_signal_unsafe=0:history_size=4'
+        opts = 'halt_on_error=0:second_deadlock_stack=1:report_signal_unsafe=0:history_size=4:exitcode=0'
         if log_path:
             opts += f':log_path={log_path}'
         env['TSAN_OPTIONS'] = opts
